@@ -134,10 +134,10 @@ TEXT = {
                 "audit — is the built data or an explicit SHA-256 collision is constructed (altered, reordered, truncated, extended, re-attributed data "
                 "rejected), for both the RFC 6962 verifier and astria-merkle's index walk; the conductor with a rollup-id check attaches only an audited blob of "
                 "its own rollup. The unchanged reconstruct.rs lacks that check: counterexample theorem, and the monitor reproduces it on the real conductor "
-                "(open finding F10). Every run drives the real builder, the real try_from_raw functions and the real conductor pipeline on generated blocks and "
+                "(finding F10, repaired by fix: 793934a). Every run drives the real builder, the real try_from_raw functions and the real conductor pipeline on generated blocks and "
                 "on every single-element tampering and diffs roots, proofs, verdicts and error kinds with the model (Lean SHA-256).",
         "design_ref": "DESIGN.md §6 C07",
-        "note": "Trusted: Lean kernel, hand-written model, harness/driver, sha2/prost/brotli/tendermint. Open findings reported as KNOWN-FINDING: F10 (conductor "
+        "note": "Trusted: Lean kernel, hand-written model, harness/driver, sha2/prost/brotli/tendermint. Findings found by this slice and repaired: F10 (conductor "
                 "attaches another rollup's blob) and FB1 (SequencerBlock::try_from_raw never verifies the per-rollup proofs it returns). Tamper evidence is "
                 "relative to data_hash (nothing binds it to the CometBFT block hash).",
         "technique": "Lean 4 proof (induction over folds / audit paths / the matching loop; collision extractors) + differential correspondence and "
@@ -155,8 +155,8 @@ TEXT = {
                 "every public decode entry point incl. the conductor's blob decoding under catch_unwind; monitor: never panic, accepted => re-encodes "
                 "equivalently and its checks hold; the glue model must predict verdict and error kind of every message prost lets through.",
         "design_ref": "DESIGN.md §6 C17",
-        "note": "Level `other` = proof (glue) + exploration (bytes). Trusted: Lean kernel, hand-written glue model, harness/driver, catch_unwind. Open finding "
-                "FB1 (per-rollup proofs of an accepted SequencerBlock are unverified) is reported as KNOWN-FINDING. CheckedTransaction::new (sequencer) is out of reach here.",
+        "note": "Level `other` = proof (glue) + exploration (bytes). Trusted: Lean kernel, hand-written glue model, harness/driver, catch_unwind. Fixed finding "
+                "FB1 (per-rollup proofs of an accepted SequencerBlock are unverified) was repaired (fix: 52f5ed5). CheckedTransaction::new (sequencer) is out of reach here.",
         "technique": "Lean 4 proof of totality / consistency / re-encoding of the validation glue + mutation-based differential exploration of all decode entry points",
     },
 }
